@@ -123,6 +123,8 @@ EmitFile == AtFile =>
         id |-> fi, fmt |-> F.fmt, kind |-> F.kind, frame |-> F.frame, scale |-> F.scale, shipped |-> F.shipped, len |-> F.len,
         hdr |-> F.hdr,
         file |-> [subs |-> [i \in 1..Len(F.subs) |-> Geometry(F.subs[i])], order |-> F.order, endian |-> F.endian, text |-> F.layout],
+        dec |-> IF Generated THEN Dec(F.kind, F.fmt) ELSE <<>>,
+        unit |-> IF Generated THEN UnitFactor(Conv(F.kind, F.fmt).unit) ELSE <<>>,
         lines |-> IF Generated /\ F.fmt = "gravsoft" THEN TextOf(Lines(F, F.layout)) ELSE <<>>,
         eol |-> Eol(F.layout), final_eol |-> FinalEol(F.layout),
         speclen |-> IF ~Generated THEN F.len ELSE IF F.fmt = "gravsoft" THEN TextLen(Lines(F, F.layout), F.layout) ELSE ByteLen(Recs(F, F.order)),
